@@ -203,6 +203,7 @@ type follower struct {
 	has          map[int64]bool // positions the follower appended in its current log incarnation
 	refused      bool           // an offer was refused with an append error since the last handshake (later offers on that stream are refused too)
 
+	crossed bool  // (page fault histories) its log has appended a position of the next index page
 	lastAck int64 // highest position the leader regarded as acknowledged by this follower (checked when it moved there)
 	// the leader lost its log tail and the channel to this follower has not completed a
 	// resynchronising step since
@@ -283,6 +284,11 @@ type world struct {
 	destroyed          bool   // the leader's wal task found the partition expired and removed its log
 	stuck              bool   // a replication step stays blocked (reported): do not wait for it again
 	raced              int    // online notifications delivered while the loop marked itself suspended
+
+	// page fault histories (see pagefault_test.go)
+	pf            bool  // page file creations can fail; a failed leader append is part of the history
+	base          int64 // append position the world started at (0, or just below an index page boundary)
+	leaderCrossed bool
 }
 
 type stepRun struct {
@@ -577,6 +583,12 @@ func (s *serverStream) Send(resp *protoReplicaV1.ReplicaResponse) error {
 		}
 	case resp.AckIndex == resp.ReplicaIndex:
 		// the follower appended this position (whether or not the answer reaches the leader)
+		if w.pf && s.p.gen == f.gen && !f.noPart && f.fq != nil {
+			// (page fault histories: not taken on trust)
+			if app := f.fq.Queue().AppendedSeq(); app < resp.ReplicaIndex && w.asyncErr == "" {
+				w.asyncErr = fmt.Sprintf("follower %d answers that it appended position %d, the appended position of its log is %d: the leader acknowledges a position the follower has not appended", f.id, resp.ReplicaIndex, app)
+			}
+		}
 		f.has[resp.ReplicaIndex] = true
 		if s.p.afterDestroy {
 			w.classes["append-to-a-partition-object-created-after-a-destruction"]++
@@ -784,9 +796,22 @@ func (w *world) newMessage(size int) []byte {
 }
 
 func (w *world) leaderPut(size int) {
+	before := w.leader.fq.Queue().AppendedSeq()
 	m := w.newMessage(size)
 	if err := w.leader.part.WriteLog(m); err != nil {
-		w.fatalf("leader append: %v", err)
+		if !w.pf {
+			w.fatalf("leader append: %v", err)
+		}
+		// page fault histories: the producer gets the error (and writes again later); the message is
+		// stored nowhere and the failed append has consumed no position
+		delete(w.idBytes, w.nextID)
+		w.logf("leaderAppend id=%d size=%d FAILED: %v", w.nextID, size, err)
+		w.class("leader-append-failed(page-fault)")
+		if app := w.leader.fq.Queue().AppendedSeq(); app != before {
+			w.fatalf("leader: a failed append (%v) moved the appended position of the log from %d to %d", err, before, app)
+		}
+		w.collectFired()
+		return
 	}
 	pos := w.leader.fq.Queue().AppendedSeq()
 	w.posOf[w.nextID] = pos
@@ -1311,9 +1336,11 @@ func (w *world) check(where string) {
 	if asyncErr != "" {
 		w.fatalf("%s: %s", where, asyncErr)
 	}
+	w.collectFired()
 	if w.step != nil {
 		return // a step is suspended inside production code; check again when it finished
 	}
+	w.checkLeader(where)
 	for _, f := range w.fols {
 		w.checkFollower(where, f)
 	}
@@ -1378,7 +1405,26 @@ func (w *world) checkFollower(where string, f *follower) {
 		w.mu.Lock()
 		has := f.has
 		w.mu.Unlock()
-		for i := f.lastAck + 1; i <= ack; i++ {
+		first := f.lastAck + 1
+		if first < w.base && ack >= w.base {
+			// (a world that started at position base: positions below it were stored only if the
+			// leader fell back below base and wrote there)
+			var low []int64
+			for i := range w.atPos {
+				if i >= first && i < w.base {
+					low = append(low, i)
+				}
+			}
+			sort.Slice(low, func(a, b int) bool { return low[a] < low[b] })
+			for _, i := range low {
+				if !has[i] && !(readable && i > fAck && i <= fApp) {
+					w.fatalf("%s: leader moved the position acknowledged by the follower from %d to %d, but the follower never appended position %d which the leader stored (follower ack=%d appended=%d)", where, f.lastAck, ack, i, fAck, fApp)
+				}
+			}
+			w.class("ack-moved-over-position-the-leader-lost")
+			first = w.base
+		}
+		for i := first; i <= ack; i++ {
 			if i < 0 || has[i] {
 				continue
 			}
@@ -1425,6 +1471,8 @@ func (w *world) convergeStepAllowed(f *follower) bool {
 // written and within a bounded number of steps every follower must hold every position the leader
 // still holds for it, the probe included.
 func (w *world) converge() {
+	w.collectFired()
+	pfDisarm(w.root, false) // no more page faults
 	for _, f := range w.fols {
 		w.mu.Lock()
 		f.failNextSend, f.failNextRecv, f.putFail = false, false, 0
@@ -1509,7 +1557,7 @@ func (w *world) converge() {
 		}
 		sort.SliceStable(pend, func(i, j int) bool { return key(pend[i]) > key(pend[j]) })
 		for _, f := range pend {
-			for i := 0; i < int(lApp)+6 && !w.busy() && (f.resyncPending || (f.app() < lApp && w.needsStep(f))); i++ {
+			for i := 0; i < w.span(lApp)+5 && !w.busy() && (f.resyncPending || (f.app() < lApp && w.needsStep(f))); i++ {
 				if !w.convergeStepAllowed(f) {
 					return
 				}
@@ -1523,7 +1571,7 @@ func (w *world) converge() {
 	if !write() {
 		return
 	}
-	budget := (int(w.leader.fq.Queue().AppendedSeq()+1) + 8) * len(w.fols)
+	budget := (w.span(w.leader.fq.Queue().AppendedSeq()) + 8) * len(w.fols)
 	done := func(f *follower) bool {
 		r := w.replicator(f)
 		return r == nil || (f.app() >= w.leader.fq.Queue().AppendedSeq() && r.Pending() == 0)
@@ -1573,7 +1621,20 @@ func (w *world) converge() {
 	w.check("after convergence")
 }
 
-func newWorld(t *rapid.T, followers int) *world {
+// span: number of positions up to lApp a follower may have to be sent (a world that started at
+// position base holds nothing below it).
+func (w *world) span(lApp int64) int {
+	if lApp >= w.base {
+		return int(lApp - w.base + 1)
+	}
+	return int(lApp + 1)
+}
+
+func newWorld(t *rapid.T, followers int) *world { return newWorldAt(t, followers, 0, false) }
+
+// newWorldAt: base > 0: the logs start at append position base (pagefault_test.go); pf: page file
+// creations can fail.
+func newWorldAt(t *rapid.T, followers int, base int64, pf bool) *world {
 	root, err := os.MkdirTemp("", "c08-")
 	if err != nil {
 		t.Fatalf("harness: %v", err)
@@ -1586,10 +1647,12 @@ func newWorld(t *rapid.T, followers int) *world {
 		f.dir = filepath.Join(root, fmt.Sprintf("follower-%d", f.id))
 		w.fols = append(w.fols, f)
 	}
+	w.pf = pf
 	for _, f := range w.fols {
 		w.openFollower(f)
 	}
 	w.openLeader()
+	w.startAt(base, true)
 	return w
 }
 
@@ -1619,6 +1682,7 @@ func (w *world) close() {
 	for _, f := range w.fols {
 		w.closeFollower(f)
 	}
+	pfDisarm(w.root, false)
 	_ = os.RemoveAll(w.root)
 }
 
